@@ -50,7 +50,8 @@ def run(ctx):
     D.rule_segment_plumbing(res, "C01-R4", dm)
     from rules import c04
     for o in c04.run(ctx).obligations:
-        if o["rule"] == "C04-R3" and o["key"].startswith(("error-bits", "invalid-only-for-protocol-reasons")):
+        if (o["rule"] == "C04-R3" and o["key"].startswith(("error-bits", "invalid-only-for-protocol-reasons"))) or \
+                (o["rule"] == "C04-R6" and o["key"].startswith("Payload(")):  # (the decoded payload object holds the message's own bytes)
             res.check(o["ok"], "C01-R6", o["key"], o["loc"], o["detail"], o["detail"])
     res.floor("C01-R6", 2)
     # what the encoder writes into the two headers, the decoder reads back: get(set(v)) == v for every field of the frame header and the
